@@ -41,6 +41,11 @@ def rand_text_spec(rng, profile, max_len=None):
     w = profile.get("weights") or S.pick_weights(rng)
     max_len = max_len or rng.choice([0, 3, 8, 20, 50])
     s = S.free_string(rng, max_len, w, space=0.18, newline=0.05 if profile.get("newlines", True) else 0.0)
+    if max_len >= 20 and not profile.get("weights") and profile.get("long_lines", True) and rng.random() < 0.06:
+        # a long, almost-ASCII line with a few odd-width characters (see strings.sparse_odd_string)
+        s = S.sparse_odd_string(rng, 65, 160)
+        if rng.random() < 0.5:
+            s = s.replace(" ", "_")     # one unbreakable word
     overflows = ["fold", "crop", "ellipsis"] + (["ignore"] if profile.get("allow_ignore") else [])
     spec = {"k": "text", "s": s,
             "justify": rng.choice([None, None, "left", "center", "right", "full"]),
@@ -53,6 +58,17 @@ def rand_text_spec(rng, profile, max_len=None):
 def gen_spec(rng, depth=3, profile=None, inline_ok=True):
     """inline_ok: a spec that `ends inline` (a ProgressBar emits no newline) is allowed here."""
     profile = profile or {}
+    spec = _gen_spec(rng, depth, profile, inline_ok)
+    solid = spec["k"] in ("panel", "padding") or (spec["k"] == "text" and spec["s"].strip())
+    if profile.get("controls", True) and solid and rng.random() < 0.05:
+        # a renderable that emits a control code (bell, cursor visibility, window title) before its content:
+        # control segments occupy no cells, wherever they end up in a line (only around children that always
+        # render at least one line: how many lines a control code alone makes is nobody's contract)
+        spec = {"k": "ctrl", "child": spec, "code": rng.choice(["\x07", "\x1b[?25l", "\x1b]0;a window title\x07"])}
+    return spec
+
+
+def _gen_spec(rng, depth, profile, inline_ok):
     kinds = profile.get("kinds")
     if depth <= 0 or rng.random() < 0.3:
         k = rng.choice([x for x in LEAF_KINDS if (kinds is None or x in kinds)] or ["text"])
@@ -182,6 +198,26 @@ def gen_table_spec(rng, depth, profile, ncols=None, nrows=None, cell_gen=None):
             "style": "none"}
     if profile.get("allow_fixed") and rng.random() < 0.25:
         spec["width"] = rng.choice([1, 5, 20, 60, 250])
+    if ncols >= 2 and nrows >= 1 and rng.random() < 0.12:
+        make_ragged(spec, rng, lambda i, j: cell())
+    return spec
+
+
+def make_ragged(spec, rng, cell):
+    """Construction route "ragged": only the first `declared` columns are declared with add_column; the others come
+    into being when a row arrives with more cells than there are columns (Table.add_row creates them and back-fills
+    blank cells for the rows already present); their options are set on the Column objects afterwards.
+    `cell(row, col)`-less callers pass a nullary cell factory."""
+    ncols, rows = len(spec["columns"]), spec["rows"]
+    declared = rng.randint(0, ncols - 1)
+    first_full = rng.randint(0, len(rows) - 1)
+    for i, r in enumerate(rows):
+        if i < first_full:
+            del r["cells"][declared:]
+        elif i == first_full:
+            while len(r["cells"]) < ncols:
+                r["cells"].append(cell(i, len(r["cells"])))
+    spec["declared"] = declared
     return spec
 
 
@@ -193,6 +229,23 @@ class NoMeasure:
 
     def __rich_console__(self, console, options):
         yield self.child
+
+
+class WithControl:
+    """A renderable that emits a control segment and then its child; measures as its child."""
+
+    def __init__(self, child, code):
+        self.child = child
+        self.code = code
+
+    def __rich_console__(self, console, options):
+        from rich.control import Control
+        yield Control(self.code)
+        yield self.child
+
+    def __rich_measure__(self, console, max_width):
+        from rich.measure import Measurement
+        return Measurement.get(console, self.child, max_width)
 
 
 class RichCast:
@@ -263,6 +316,8 @@ def build(spec):
         return mk(spec["root"])
     if k == "table":
         return build_table(spec)
+    if k == "ctrl":         # control code, then the child
+        return WithControl(build(spec["child"]), spec["code"])
     if k == "nomeasure":    # a renderable without __rich_measure__
         return NoMeasure(build(spec["child"]))
     if k == "richcast":     # an object cast through __rich__
@@ -281,12 +336,21 @@ def build_table(spec):
               expand=spec["expand"], show_header=spec["show_header"], show_footer=spec["show_footer"],
               show_edge=spec["show_edge"], show_lines=spec["show_lines"], leading=spec["leading"],
               row_styles=spec["row_styles"], style=spec.get("style", "none"))
-    for c in spec["columns"]:
+    declared = spec.get("declared", len(spec["columns"]))
+    for c in spec["columns"][:declared]:
         t.add_column(build(c["header"]), build(c["footer"]), justify=c["justify"], overflow=c["overflow"],
                      ratio=c["ratio"], max_width=c["max_width"], width=c["width"], min_width=c["min_width"],
                      no_wrap=c["no_wrap"], style=c.get("style"))
     for r in spec["rows"]:
         t.add_row(*[build(c) for c in r["cells"]], style=r["style"], end_section=r["end_section"])
+    if declared < len(spec["columns"]):
+        assert len(t.columns) == len(spec["columns"]), "generator: a ragged table must get all its columns from rows"
+        for c, col in list(zip(spec["columns"], t.columns))[declared:]:
+            col.header, col.footer = build(c["header"]), build(c["footer"])
+            col.justify, col.overflow, col.ratio, col.max_width = c["justify"], c["overflow"], c["ratio"], c["max_width"]
+            col.width, col.min_width, col.no_wrap = c["width"], c["min_width"], c["no_wrap"]
+            if c.get("style"):
+                col.style = c["style"]
     return t
 
 
@@ -301,7 +365,7 @@ def all_strings(spec):
     elif k == "panel":
         yield spec["title"] or ""
         yield from all_strings(spec["child"])
-    elif k in ("padding", "align", "constrain", "styled", "nomeasure", "richcast"):
+    elif k in ("padding", "align", "constrain", "styled", "nomeasure", "richcast", "ctrl"):
         yield from all_strings(spec["child"])
     elif k == "group":
         for c in spec["children"]:
@@ -329,7 +393,7 @@ def all_strings(spec):
 
 def depth(spec):
     k = spec["k"]
-    if k in ("panel", "padding", "align", "constrain", "styled", "nomeasure", "richcast"):
+    if k in ("panel", "padding", "align", "constrain", "styled", "nomeasure", "richcast", "ctrl"):
         return 1 + depth(spec["child"])
     if k == "group":
         return 1 + max([depth(c) for c in spec["children"]] or [0])
@@ -353,7 +417,7 @@ def kinds(spec, acc=None):
     acc = acc if acc is not None else set()
     acc.add(spec["k"])
     k = spec["k"]
-    if k in ("panel", "padding", "align", "constrain", "styled", "nomeasure", "richcast"):
+    if k in ("panel", "padding", "align", "constrain", "styled", "nomeasure", "richcast", "ctrl"):
         kinds(spec["child"], acc)
     elif k == "group":
         for c in spec["children"]:
@@ -390,7 +454,7 @@ def structural_min(spec, c=None):
     if k == "panel":
         _, r, _, l = unpack_pad(spec["padding"])
         return max(structural_min(spec["child"], c) + 2 + l + r, 4 if spec["title"] else 2)
-    if k in ("align", "constrain", "styled", "nomeasure", "richcast"):
+    if k in ("align", "constrain", "styled", "nomeasure", "richcast", "ctrl"):
         return structural_min(spec["child"], c)
     if k == "group":
         return max([structural_min(x, c) for x in spec["children"]] or [c])
